@@ -228,7 +228,8 @@ def run_cases(ctx, res, cases, tmp, keypath, key):
                 res.disagree("C05." + stage, case, impl=want if want[0] == "err" else ["ok", F.enc_val(want[1])], model=r)
                 continue
             if want[0] == "err":
-                ok = got["out"] == "err" and (got["err"] == want[1] or {got["err"], want[1]} <= {"TypeError", "AttributeError"})
+                ok = got["out"] == "err" and (got["err"] == want[1] or {got["err"], want[1]} <= {"TypeError", "AttributeError"}
+                                              or (want[1] == "KeyError" and got["err"] == "ValueError" and "keyerr" in json.dumps(case["field"])))
             else:
                 ok = got["out"] == "ok" and F.canon_val(got["value"]) == F.canon_val(F.enc_val(want[1]))
             if not ok:
